@@ -348,11 +348,9 @@ fn run_faults(h: &mut H, mode: &str, persistent: bool, prev_present: bool) -> Re
                 gate::set_fail_writes_from(None);
                 problems.push(json!({"problem": "background-save-with-a-failed-write-never-ended", "ctx": {"mode": mode, "failing_write": n, "persistent": persistent}}));
                 h.drop_server();
-                h.ensure()?;
-                build_dataset(h, which)?;
-                h.must_ok(&["SAVE"])?;
-                n += 1;
-                continue;
+                // every further point would wait for the same timeout: one verdict is enough
+                points += 1;
+                break;
             }
         }
         let writes = gate::WRITE_COUNT.load(Ordering::SeqCst);
@@ -1087,8 +1085,15 @@ pub fn handle_factory() -> impl FnMut(&str, &Value, &mut WorkerIo) -> (Value, bo
                             }
                         }
                         Err(e) => {
-                            errors.push(format!("{} {} {} schedule {}: {}", family, ty, ttl, i, e));
                             hh.drop_server();
+                            if e.contains("did not end") || e.contains("neither paused nor ended") {
+                                // nothing is parked and the clock is ours: the save thread is gone or its flag was left set
+                                let items: Vec<String> = s.iter().map(|(p, m)| format!("pause {}: {}", p, item_name(&menu[*m]))).collect();
+                                let classes: Vec<String> = s.iter().map(|(_, m)| item_class(&menu[*m])).collect();
+                                recs.push(json!({"i": i, "problem": "background-save-never-ended-or-left-its-flag-set", "detail": {"error": e}, "schedule": items, "classes": classes, "pauses": [], "steps": []}));
+                                break;
+                            }
+                            errors.push(format!("{} {} {} schedule {}: {}", family, ty, ttl, i, e));
                         }
                     }
                 }
